@@ -2,7 +2,10 @@
    Proofs/. *)
 From RV.Model Require Import Base I32.
 From RV.Spec Require FoldSpec.
-From RV.Proofs Require Import FoldProofs.
+From RV.Model Require Import Lexer Isa Parser Cfg Avail.
+From RV.Spec Require AsmSpec Rv32.
+From RV.Proofs Require Import FoldProofs DecodeProofs.
+From Coq Require Import List.
 
 Definition spec_op (o : mathop) : FoldSpec.op :=
   match o with
@@ -31,3 +34,19 @@ Example C08_fold_examples :
   operate MMulhu (-1) (-1) = -2 /\ operate MMulhsu 2 (-1) = 1 /\
   operate MSll 1 33 = 2 /\ operate MSra (-8) 33 = -4 /\ operate MAdd i32_max 1 = i32_min.
 Proof. unfold in32, i32_min, i32_max. vm_compute. repeat split; congruence. Qed.
+
+(* Decode tables.  For every register-register / register-immediate mnemonic of RV32IM (the manual's table in
+   Spec/AsmSpec.v) the parser recognises the mnemonic - in any letter case - and both the value analysis (math_op,
+   whose result is folded by `operate` above) and the ISA machine of C01 attach the manual's operation to it; every
+   load/store mnemonic has the manual's width and signedness.  (Operand forms and pseudo-instructions: Props/C13.v
+   and the exhaustive decode comparison of the check.) *)
+Definition C08_decode_statement : Prop :=
+  (forall m o, In (m, o) AsmSpec.manual_arith ->
+     exists i mo, inst_from_str m = Some i /\ math_op i = Some mo /\ Rv32.spec_of mo = o /\ Rv32.alu i = Some o) /\
+  (forall m w sg, In (m, (w, sg)) AsmSpec.manual_loads -> exists i, inst_from_str m = Some i /\ Rv32.load_width i = (w, sg)) /\
+  (forall m w, In (m, w) AsmSpec.manual_stores -> exists i, inst_from_str m = Some i /\ Rv32.store_width i = w) /\
+  (forall s, inst_from_str (lower s) = inst_from_str s).
+Theorem C08_decode_tables : C08_decode_statement.
+Proof. exact (conj decode_arith (conj (proj1 decode_mem) (conj (proj2 decode_mem) decode_case))). Qed.
+Check C08_decode_tables : C08_decode_statement.
+Print Assumptions C08_decode_tables.
